@@ -568,8 +568,10 @@ assembleVaryKey(String &vary, SBuf &vstr, const HttpRequest &request)
         if (!vstr.isEmpty())
             vstr.append(", ", 2);
         vstr.append(name);
-        String hdr(request.header.getByName(name));
-        const char *value = hdr.termedBuf();
+        String hdr;
+        // a present-but-empty field differs from an absent field (RFC 9111 section 4.1)
+        const auto present = request.header.hasNamed(name, &hdr);
+        const char *value = present ? (hdr.termedBuf() ? hdr.termedBuf() : "") : nullptr;
         if (value) {
             value = rfc1738_escape_part(value);
             vstr.append("=\"", 2);
